@@ -5,10 +5,10 @@ import DepsDev.Model.Semver.Compare
 # `excludeToSpans`, `span.contains`, `span.String`
 
 Go mutates `*Version`s in place; here every function returns the new value. The
-places where Go aliases two pointers (`newSpan(lo, closed, lo, closed)`, the
-shared bounds inside `Intersect`) only ever perform writes that are no-ops on
-versions that have already been through `newSpan` (no wildcard markers, empty
-build); the correspondence check prints operands after operations to confirm.
+places where Go aliases two pointers (`newSpan(lo, closed, lo, closed)` in
+`opVersionToSpan`, the shared bounds inside `Intersect`) only ever perform writes that
+are no-ops on versions without wildcard markers and with empty build; the one place where
+the aliasing is visible (`setRange`'s `[v]` with a wildcard `v`) is `newSpanAliased`.
 -/
 namespace DepsDev.Semver
 
@@ -122,6 +122,15 @@ def newSpan (min : Version) (minOpen : Bool) (max : Version) (maxOpen : Bool) : 
     let lt ← vLess min max
     if lt then .ok { rank := .vector, minOpen := minOpen, maxOpen := maxOpen, min := some min, max := some max }
     else .err
+
+/-- `newSpan(min, false, min, false)` called with ONE pointer for both bounds (setRange's
+hard requirement `[v]`): the write through `min` (`setTail(wildcard, 0)`) is visible through
+`max`, so the upper bound never sees the wildcard (`[2.0.12.*]` is the single point
+`2.0.12.0`). When `min` is a bare `*`, `min` is re-bound to a fresh `MinVersion` and `max`
+keeps the original, as with two pointers. -/
+def newSpanAliased (v : Version) : Outcome Span :=
+  if v.major == wildcard then newSpan v false v false
+  else newSpan (v.setTail wildcard 0) false (v.setTail wildcard 0) false
 
 def setInfAll (v : Version) : Version := { v with num := v.num.map (fun _ => infinity) }
 
